@@ -35,7 +35,7 @@ impl Format {
         if self.is_compressed() {
             ""
         } else {
-            &INDENT[..=len]
+            &INDENT[..=len.min(INDENT.len() - 1)]
         }
     }
 }
